@@ -93,6 +93,21 @@ func fixedMIDs() []midCase {
 			"x =?utf-8?q?"+q+"?=", pc, strings.ReplaceAll(target, "/", "%2F"), strings.ReplaceAll(target, "/", "%252f"), strings.ReplaceAll(target, "/", "&#47;"), strings.ReplaceAll(target, "/", "\u2215"),
 			strings.ReplaceAll(strings.ReplaceAll(target, "/", "\xc0\xaf"), ".", "\xc0\xae"), strings.ReplaceAll(strings.ReplaceAll(target, "/", "\uff0f"), ".", "\uff0e"), b64, q)
 	}
+	// identifiers whose characters turn into separators and dots when a rune is cut down to its low byte (U+012E -> '.',
+	// U+012F -> '/', U+015C -> '\\'; also from higher planes): the raw strings contain no ASCII separator at all
+	for _, target := range []string{"../../x", "../../decoy", "../../../../../../x", "/abs/x", "../../mbox2/in/x", "../../empty", "..\\..\\x"} {
+		for _, hi := range []rune{0x100, 0x200, 0x1F00, 0x2F00, 0x10100} {
+			var b strings.Builder
+			for _, c := range target {
+				if c == '.' || c == '/' || c == '\\' {
+					b.WriteRune(hi | c)
+				} else {
+					b.WriteRune(c)
+				}
+			}
+			add("rune-truncation", b.String())
+		}
+	}
 	// targets below directories that do not exist (yet): a helper that "creates the missing folder" first
 	add("newdir", "../../N0NEW/in/x", "../../../spool/cron/x", "../newdir/x", "/abs/newdir/x", "../../Q/x", "../Q/x", "../../../../../../new/dir/deep/x", "newdir/x", "in/newdir/x", "../../mbox2/newdir/x")
 	// identifiers made of file-name pattern characters (a helper that globs instead of opening)
